@@ -163,7 +163,7 @@ theorem writes_sorted_lastwins (s : St) (hl : LogInv s) :
       cases hw : s.tw x with
       | none => simpa [hw] using ih hx.2
       | some w =>
-        simp only [hw, Option.map_some, List.map_cons]
+        simp only [Option.map_some, List.map_cons]
         apply List.pairwise_cons.mpr
         refine ⟨?_, ih hx.2⟩
         intro a ha
